@@ -192,10 +192,13 @@ Definition res_add (a b : res T) : res T :=
   end.
 Definition atom_interp (a : atom) (pts : list (T * D)) (deriv : nat) (sph ro : bool) : res T :=
   interpolate (a_grid a) (map2 (map2 (mul o)) (a_f a) (a_aim a)) pts deriv sph ro.
-Definition mol_interpolate (atoms : list atom) (locs : list (list (T * D))) (deriv : nat) (sph ro : bool) : res T :=
-  match map2 (fun a pts => atom_interp a pts deriv sph ro) atoms locs with
+(* output = interpolate_funcs[0](...);  for interpolate in interpolate_funcs[1:]: output += interpolate(...) *)
+Definition mol_combine (outs : list (res T)) : res T :=
+  match outs with
   | [] => Err
   | x :: rest => fold_left res_add rest x
   end.
+Definition mol_interpolate (atoms : list atom) (locs : list (list (T * D))) (deriv : nat) (sph ro : bool) : res T :=
+  mol_combine (map2 (fun a pts => atom_interp a pts deriv sph ro) atoms locs).
 
 End Model.
